@@ -888,7 +888,9 @@ class NpyArray:
         if os.path.exists(filename):
             self.__init__(filename)
         elif os.path.exists(basename):
-            self.__init__(basename)
+            # Found relative to the current working directory only (e.g. while ArrayPool.open has changed into the
+            # pool folder): keep the absolute path so that the store still names its own file afterwards
+            self.__init__(os.path.abspath(basename))
         else:
             self.fs = None
             raise FileNotFoundError('Could not find the file {}'.format(filename))
